@@ -1065,11 +1065,13 @@ def run(env, rep):
     lines, impl = [], []
     for fr, tag in ds:
         lines.append("C15 D " + spec(fr))
+        fields = None
         try:
             with warnings.catch_warnings():
                 warnings.simplefilter("ignore")
                 m = tcp._decode_message(fr)
-            r = sim.render_fields(*sim.msg_fields(m))
+            fields = sim.msg_fields(m)
+            r = sim.render_fields(*fields)
         except aiocoap.error.UnparsableMessage:
             r = "unparsable"
         except Exception as e:
@@ -1078,7 +1080,7 @@ def run(env, rep):
         case = {"kind": "D", "frame": spec(fr)}
         rep.case(case, nontrivial=r != "unparsable", sample_every=3000)
         rep.count("D:%s:%s" % (tag, "unparsable" if r == "unparsable" else "exception" if r.startswith("exception") else "ok"))
-        v = judge_D(fr, r)
+        v = judge_D(fr, r, fields)
         if v:
             rep.oracle_fail(case, v, key="tcp-decode:" + v.split(":")[0])
     compare(env, rep, ds, lines, impl, what="decode_message")
@@ -1128,8 +1130,10 @@ def run(env, rep):
     glue_sessions(env, aiocoap, tcp, rep)
 
 
-def judge_D(fr, r):
-    """independent reading of one complete frame"""
+def judge_D(fr, r, fields=None):
+    """independent reading of one complete frame; with `fields` (what the implementation decoded)
+    also: identical code, token, options and payload -- option values of a signalling frame byte
+    for byte, those of other frames as the value their format denotes"""
     h = sim.o_header(fr, 0)
     off, tkl, bl = h
     if r.startswith("exception"):
@@ -1142,6 +1146,14 @@ def judge_D(fr, r):
         return "" if r == "unparsable" else "accepted: unparsable frame %s decoded as %s" % (fr.hex()[:80], r)
     if r == "unparsable":
         return "rejected: well-formed frame %s reported unparsable" % fr.hex()[:80]
+    if fields is not None:
+        code, token = fr[off - 1], fr[off:off + tkl]
+        c2, t2, o2, p2 = fields
+        same = (c2 == code and t2 == token and p2 == payload and len(o2) == len(opts)
+                and all(a[0] == b[0] and (a[1] == b[1] if code >= 224 else sim.o_same_value(a[0], a[1], b[1]))
+                        for a, b in zip(o2, opts)))
+        if not same:
+            return "mismatch: frame %s decoded as %s, it says %s" % (fr.hex()[:80], r, sim.render_fields(code, token, opts, payload))
     return ""
 
 
@@ -1185,15 +1197,17 @@ def replay(env, case):
         return "" if bytes([nib << 4]) + ext == _hdr(case["n"], 0) else "_encode_length(%d) = (%d, %s)" % (case["n"], nib, ext.hex())
     if k == "D":
         fr = unspec(case["frame"])
+        fields = None
         try:
             with warnings.catch_warnings():
                 warnings.simplefilter("ignore")
-                r = sim.render_fields(*sim.msg_fields(tcp._decode_message(fr)))
+                fields = sim.msg_fields(tcp._decode_message(fr))
+            r = sim.render_fields(*fields)
         except aiocoap.error.UnparsableMessage:
             r = "unparsable"
         except Exception as e:
             r = "exception:" + type(e).__name__
-        return judge_D(fr, r)
+        return judge_D(fr, r, fields)
     if k == "S":
         r, fields, blob = run_S(aiocoap, tcp, case)
         return judge_S(fields, r, blob)
